@@ -240,162 +240,7 @@ func runC10(c *Ctx) {
 
 	checkApplyTable(c)
 
-	// R10.5
-	lc := w.Method("entities/bug", "LabelChangeOperation", "Apply")
-	if lc == nil {
-		c.Undecided("R10.5", "anchor:LabelChangeOperation.Apply", "entities/bug", "not found")
-		return
-	}
-	var sortCall *Call
-	for _, cl := range Calls(lc) {
-		if cl.Name == "sort.Slice" || cl.Name == "sort.SliceStable" || cl.Name == "sort.Sort" {
-			if hasField(stripConv(cl.Args()[0]), "Labels") {
-				sortCall = cl
-			}
-		}
-	}
-	if sortCall == nil {
-		c.Violate("R10.5", "LabelChangeOperation.Apply:sorted", w.FnPos(lc), "the label set is not sorted after a change")
-		return
-	}
-	// no modification of Labels after the sort, and every modification reaches the sort
-	bad := ""
-	for _, b := range lc.Blocks {
-		for _, ins := range b.Instrs {
-			st, isSt := ins.(*ssa.Store)
-			if !isSt {
-				continue
-			}
-			isLabels := false
-			if fa, isFA := st.Addr.(*ssa.FieldAddr); isFA && fieldName(fa) == "Labels" {
-				isLabels = true
-			}
-			if ia, isIA := st.Addr.(*ssa.IndexAddr); isIA {
-				if _, fld, isF := loadOfField(ia.X); isF && fld == "Labels" {
-					isLabels = true
-				}
-			}
-			if !isLabels {
-				continue
-			}
-			c.Sites++
-			if after, _, _ := pathSearch(lc, sortCall.Instr, nil, func(i ssa.Instruction) bool { return i == ssa.Instruction(st) }, nil, false); after {
-				bad = "labels are modified at " + w.InstrPos(st) + " after the sort"
-			}
-			if skip, _, _ := pathSearch(lc, st, nil, isAnyReturn, func(i ssa.Instruction) bool { return i == sortCall.Instr }, false); skip {
-				bad = "a return is reachable after the modification at " + w.InstrPos(st) + " without sorting"
-			}
-		}
-	}
-	c.Check(bad == "", "R10.5", "LabelChangeOperation.Apply:sorted", w.InstrPos(sortCall.Instr), "every modification of the labels is followed by the sort", bad)
-	// comparator ascending on the label text
-	if mc, isMC := sortCall.Args()[1].(*ssa.MakeClosure); isMC {
-		less := mc.Fn.(*ssa.Function)
-		okLess := false
-		for _, r := range Returns(less) {
-			if bo, isBo := r.Results[0].(*ssa.BinOp); isBo && bo.Op == token.LSS {
-				okLess = true
-			}
-		}
-		c.Check(okLess, "R10.5", "LabelChangeOperation.Apply:ascending", w.InstrPos(sortCall.Instr), "ascending by label text", "labels are not sorted ascending")
-	}
-	// additions only when absent: the append of an Added element is skipped when an equal label exists
-	okDup := false
-	for _, cl := range Calls(lc) {
-		bi, isB := cl.Instr.Common().Value.(*ssa.Builtin)
-		if !isB || bi.Name() != "append" {
-			continue
-		}
-		if _, fld, isF := loadOfField(cl.Instr.Common().Args[0]); !isF || fld != "Labels" {
-			continue
-		}
-		// the appending block is reached only after the inner loop found no equal label: there is an equality
-		// test between an element of Labels and the added label whose true edge bypasses the append
-		for _, b := range lc.Blocks {
-			for _, ins := range b.Instrs {
-				bo, isBo := ins.(*ssa.BinOp)
-				if !isBo || bo.Op != token.EQL {
-					continue
-				}
-				if !(hasField(bo.X, "Labels") && hasField(bo.Y, "Added") || hasField(bo.Y, "Labels") && hasField(bo.X, "Added")) {
-					continue
-				}
-				for _, u := range condUsers(bo) {
-					e := 0
-					if u.Neg {
-						e = 1
-					}
-					tb := u.If.Block().Succs[e]
-					// "already there": go on with the next added label (the header of the loop containing the append) or leave
-					if isLoopHeader(tb) && inLoop(cl.Block(), tb) {
-						okDup = true
-					} else if reach, _, _ := pathSearch(lc, nil, tb, func(i ssa.Instruction) bool { return i == cl.Instr }, func(i ssa.Instruction) bool { return isLoopHeader(i.Block()) && inLoop(cl.Block(), i.Block()) }, false); !reach {
-						okDup = true
-					}
-				}
-			}
-		}
-	}
-	// or: the test is delegated to a membership predicate called with (Labels, added label)
-	for _, cl := range Calls(lc) {
-		bi, isB := cl.Instr.Common().Value.(*ssa.Builtin)
-		if !isB || bi.Name() != "append" {
-			continue
-		}
-		if _, fld, isF := loadOfField(cl.Instr.Common().Args[0]); !isF || fld != "Labels" {
-			continue
-		}
-		for _, pc := range Calls(lc) {
-			pv, isCall := pc.Instr.(*ssa.Call)
-			if !isCall || pc.Fn == nil {
-				continue
-			}
-			mp := membershipPred(pc.Fn)
-			if mp == nil {
-				continue
-			}
-			var listA, targetA ssa.Value
-			for i, pp := range pc.Fn.Params {
-				if i >= len(pv.Common().Args) {
-					continue
-				}
-				if ssa.Value(pp) == mp.list {
-					listA = pv.Common().Args[i]
-				}
-				if ssa.Value(pp) == mp.target {
-					targetA = pv.Common().Args[i]
-				}
-			}
-			if listA == nil || targetA == nil || !hasField(listA, "Labels") || !hasField(targetA, "Added") {
-				continue
-			}
-			for _, u := range condUsers(pv) {
-				e := 0
-				if u.Neg {
-					e = 1
-				}
-				tb := u.If.Block().Succs[e]
-				if isLoopHeader(tb) && inLoop(cl.Block(), tb) {
-					okDup = true
-				} else if reach, _, _ := pathSearch(lc, nil, tb, func(i ssa.Instruction) bool { return i == cl.Instr }, func(i ssa.Instruction) bool { return isLoopHeader(i.Block()) && inLoop(cl.Block(), i.Block()) }, false); !reach {
-					okDup = true
-				}
-			}
-		}
-	}
-	c.Check(okDup, "R10.5", "LabelChangeOperation.Apply:no-duplicates", w.FnPos(lc), "a label already present is not added again", "an added label that is already present is appended again: the label set gets duplicates")
-	// removals compare with op.Removed
-	okRem := false
-	for _, b := range lc.Blocks {
-		for _, ins := range b.Instrs {
-			if bo, isBo := ins.(*ssa.BinOp); isBo && bo.Op == token.EQL {
-				if hasField(bo.X, "Labels") && hasField(bo.Y, "Removed") || hasField(bo.Y, "Labels") && hasField(bo.X, "Removed") {
-					okRem = true
-				}
-			}
-		}
-	}
-	c.Check(okRem, "R10.5", "LabelChangeOperation.Apply:removals", w.FnPos(lc), "labels equal to a removed one are taken out", "removed labels are not matched against the label set")
+	checkLabelChange(c)
 }
 
 // isSameParam: v is the parameter p, or a load of the local cell p was spilled into (captured by a closure).
@@ -530,6 +375,7 @@ func checkApplyUnconditional(c *Ctx) {
 		{"AddCommentOperation", "Apply", []req{{"the comment is added", storeTo("Comments")}, {"the author becomes an actor", callTo("Snapshot.addActor")}, {"the author becomes a participant", callTo("Snapshot.addParticipant")}, {"a timeline item is added", storeTo("Timeline")}}},
 		{"CommentTimelineItem", "Append", []req{{"the message is replaced", storeTo("Message")}, {"the files are replaced", storeTo("Files")}, {"the last-edit time is replaced", storeTo("LastEdit")}, {"a history step is added", storeTo("History")}}},
 	}
+	checkEditCommentNoOpOnlyWithoutTarget(c)
 	for _, t := range targets {
 		fn := w.Method("entities/bug", t.typ, t.method)
 		if fn == nil {
@@ -792,4 +638,262 @@ func checkApplyTable(c *Ctx) {
 		c.Check(ok && okApp, "R10.4", "Snapshot."+m+":once", w.FnPos(fn), "returns early when the id is already listed, appends otherwise", m+" can list the same identity twice (or never appends)")
 	}
 
+}
+
+// checkLabelChange (R10.5): the label set stays a sorted set. Shared with C07: the removal loop of
+// LabelChangeOperation.Apply indexes the label slice while shrinking it, which is only safe when every
+// label occurs once — a duplicate makes Compile panic on remote data.
+func checkLabelChange(c *Ctx) {
+	w := c.W
+	c.Doc("R10.5", "LabelChangeOperation.Apply: a label is appended only when not already present, and every path after the last modification passes the sort of the labels")
+	// R10.5
+	lc := w.Method("entities/bug", "LabelChangeOperation", "Apply")
+	if lc == nil {
+		c.Undecided("R10.5", "anchor:LabelChangeOperation.Apply", "entities/bug", "not found")
+		return
+	}
+	var sortCall *Call
+	for _, cl := range Calls(lc) {
+		if cl.Name == "sort.Slice" || cl.Name == "sort.SliceStable" || cl.Name == "sort.Sort" {
+			if hasField(stripConv(cl.Args()[0]), "Labels") {
+				sortCall = cl
+			}
+		}
+	}
+	if sortCall == nil {
+		c.Violate("R10.5", "LabelChangeOperation.Apply:sorted", w.FnPos(lc), "the label set is not sorted after a change")
+		return
+	}
+	// no modification of Labels after the sort, and every modification reaches the sort
+	bad := ""
+	for _, b := range lc.Blocks {
+		for _, ins := range b.Instrs {
+			st, isSt := ins.(*ssa.Store)
+			if !isSt {
+				continue
+			}
+			isLabels := false
+			if fa, isFA := st.Addr.(*ssa.FieldAddr); isFA && fieldName(fa) == "Labels" {
+				isLabels = true
+			}
+			if ia, isIA := st.Addr.(*ssa.IndexAddr); isIA {
+				if _, fld, isF := loadOfField(ia.X); isF && fld == "Labels" {
+					isLabels = true
+				}
+			}
+			if !isLabels {
+				continue
+			}
+			c.Sites++
+			if after, _, _ := pathSearch(lc, sortCall.Instr, nil, func(i ssa.Instruction) bool { return i == ssa.Instruction(st) }, nil, false); after {
+				bad = "labels are modified at " + w.InstrPos(st) + " after the sort"
+			}
+			if skip, _, _ := pathSearch(lc, st, nil, isAnyReturn, func(i ssa.Instruction) bool { return i == sortCall.Instr }, false); skip {
+				bad = "a return is reachable after the modification at " + w.InstrPos(st) + " without sorting"
+			}
+		}
+	}
+	c.Check(bad == "", "R10.5", "LabelChangeOperation.Apply:sorted", w.InstrPos(sortCall.Instr), "every modification of the labels is followed by the sort", bad)
+	// comparator ascending on the label text
+	if mc, isMC := sortCall.Args()[1].(*ssa.MakeClosure); isMC {
+		less := mc.Fn.(*ssa.Function)
+		okLess := false
+		for _, r := range Returns(less) {
+			if bo, isBo := r.Results[0].(*ssa.BinOp); isBo && bo.Op == token.LSS {
+				okLess = true
+			}
+		}
+		c.Check(okLess, "R10.5", "LabelChangeOperation.Apply:ascending", w.InstrPos(sortCall.Instr), "ascending by label text", "labels are not sorted ascending")
+	}
+	// additions only when absent: the append of an Added element is skipped when an equal label exists
+	okDup := false
+	for _, cl := range Calls(lc) {
+		bi, isB := cl.Instr.Common().Value.(*ssa.Builtin)
+		if !isB || bi.Name() != "append" {
+			continue
+		}
+		if _, fld, isF := loadOfField(cl.Instr.Common().Args[0]); !isF || fld != "Labels" {
+			continue
+		}
+		// the appending block is reached only after the inner loop found no equal label: there is an equality
+		// test between an element of Labels and the added label whose true edge bypasses the append
+		for _, b := range lc.Blocks {
+			for _, ins := range b.Instrs {
+				bo, isBo := ins.(*ssa.BinOp)
+				if !isBo || bo.Op != token.EQL {
+					continue
+				}
+				if !(hasField(bo.X, "Labels") && hasField(bo.Y, "Added") || hasField(bo.Y, "Labels") && hasField(bo.X, "Added")) {
+					continue
+				}
+				for _, u := range condUsers(bo) {
+					e := 0
+					if u.Neg {
+						e = 1
+					}
+					tb := u.If.Block().Succs[e]
+					// "already there": go on with the next added label (the header of the loop containing the append) or leave
+					if isLoopHeader(tb) && inLoop(cl.Block(), tb) {
+						okDup = true
+					} else if reach, _, _ := pathSearch(lc, nil, tb, func(i ssa.Instruction) bool { return i == cl.Instr }, func(i ssa.Instruction) bool { return isLoopHeader(i.Block()) && inLoop(cl.Block(), i.Block()) }, false); !reach {
+						okDup = true
+					}
+				}
+			}
+		}
+	}
+	// or: the test is delegated to a membership predicate called with (Labels, added label)
+	for _, cl := range Calls(lc) {
+		bi, isB := cl.Instr.Common().Value.(*ssa.Builtin)
+		if !isB || bi.Name() != "append" {
+			continue
+		}
+		if _, fld, isF := loadOfField(cl.Instr.Common().Args[0]); !isF || fld != "Labels" {
+			continue
+		}
+		for _, pc := range Calls(lc) {
+			pv, isCall := pc.Instr.(*ssa.Call)
+			if !isCall || pc.Fn == nil {
+				continue
+			}
+			mp := membershipPred(pc.Fn)
+			if mp == nil {
+				continue
+			}
+			var listA, targetA ssa.Value
+			for i, pp := range pc.Fn.Params {
+				if i >= len(pv.Common().Args) {
+					continue
+				}
+				if ssa.Value(pp) == mp.list {
+					listA = pv.Common().Args[i]
+				}
+				if ssa.Value(pp) == mp.target {
+					targetA = pv.Common().Args[i]
+				}
+			}
+			if listA == nil || targetA == nil || !hasField(listA, "Labels") || !hasField(targetA, "Added") {
+				continue
+			}
+			for _, u := range condUsers(pv) {
+				e := 0
+				if u.Neg {
+					e = 1
+				}
+				tb := u.If.Block().Succs[e]
+				if isLoopHeader(tb) && inLoop(cl.Block(), tb) {
+					okDup = true
+				} else if reach, _, _ := pathSearch(lc, nil, tb, func(i ssa.Instruction) bool { return i == cl.Instr }, func(i ssa.Instruction) bool { return isLoopHeader(i.Block()) && inLoop(cl.Block(), i.Block()) }, false); !reach {
+					okDup = true
+				}
+			}
+		}
+	}
+	c.Check(okDup, "R10.5", "LabelChangeOperation.Apply:no-duplicates", w.FnPos(lc), "a label already present is not added again", "an added label that is already present is appended again: the label set gets duplicates")
+	// removals compare with op.Removed
+	okRem := false
+	for _, b := range lc.Blocks {
+		for _, ins := range b.Instrs {
+			if bo, isBo := ins.(*ssa.BinOp); isBo && bo.Op == token.EQL {
+				if hasField(bo.X, "Labels") && hasField(bo.Y, "Removed") || hasField(bo.Y, "Labels") && hasField(bo.X, "Removed") {
+					okRem = true
+				}
+			}
+		}
+	}
+	c.Check(okRem, "R10.5", "LabelChangeOperation.Apply:removals", w.FnPos(lc), "labels equal to a removed one are taken out", "removed labels are not matched against the label set")
+}
+
+
+// checkEditCommentNoOpOnlyWithoutTarget (R10.6): an edit-comment operation is a no-op only when its target is
+// not a comment of this bug. Every branch that decides whether the comment is replaced (one successor can
+// still reach CommentTimelineItem.Append, the other cannot) is a test of the target found: nil, or its type.
+func checkEditCommentNoOpOnlyWithoutTarget(c *Ctx) {
+	w := c.W
+	fn := w.Method("entities/bug", "EditCommentOperation", "Apply")
+	if fn == nil {
+		c.Undecided("R10.6", "anchor:EditCommentOperation.Apply", "entities/bug", "not found")
+		return
+	}
+	c.seeFn(funcName(fn))
+	isAppend := func(i ssa.Instruction) bool {
+		ci, ok := i.(ssa.CallInstruction)
+		if !ok {
+			return false
+		}
+		n, _ := callName(ci.Common())
+		return strings.HasSuffix(n, "CommentTimelineItem.Append") || strings.HasSuffix(n, ".Append") && strings.Contains(n, "TimelineItem")
+	}
+	hasAppend := map[*ssa.BasicBlock]bool{}
+	nAppend := 0
+	for _, b := range fn.Blocks {
+		for _, ins := range b.Instrs {
+			if isAppend(ins) {
+				hasAppend[b] = true
+				nAppend++
+			}
+		}
+	}
+	canAppend := func(from *ssa.BasicBlock) bool {
+		seen := map[*ssa.BasicBlock]bool{from: true}
+		q := []*ssa.BasicBlock{from}
+		for len(q) > 0 {
+			x := q[0]
+			q = q[1:]
+			if hasAppend[x] {
+				return true
+			}
+			for _, s := range x.Succs {
+				if !seen[s] {
+					seen[s] = true
+					q = append(q, s)
+				}
+			}
+		}
+		return false
+	}
+	bad, n := "", 0
+	for _, b := range fn.Blocks {
+		if len(b.Instrs) == 0 || len(b.Succs) != 2 {
+			continue
+		}
+		iff, ok := b.Instrs[len(b.Instrs)-1].(*ssa.If)
+		if !ok || hasAppend[b] {
+			continue
+		}
+		// only branches before the replacement matter
+		if canAppend(b.Succs[0]) == canAppend(b.Succs[1]) {
+			continue
+		}
+		n++
+		c.Sites++
+		okCond := false
+		switch x := iff.Cond.(type) {
+		case *ssa.Extract:
+			if _, isTA := x.Tuple.(*ssa.TypeAssert); isTA && x.Index == 1 {
+				okCond = true
+			}
+		case *ssa.BinOp:
+			if (x.Op == token.EQL || x.Op == token.NEQ) && (isNilConst(x.X) || isNilConst(x.Y)) {
+				v := x.X
+				if isNilConst(v) {
+					v = x.Y
+				}
+				// the value tested is an element of the timeline (the target found) or nil
+				for _, o := range origins(v) {
+					if o.Kind == "field" && o.Name == "Timeline" {
+						okCond = true
+					}
+					if o.Kind == "call" && strings.HasSuffix(o.Name, "SearchTimelineItem") {
+						okCond = true
+					}
+				}
+			}
+		}
+		if !okCond {
+			bad = "the branch at " + w.InstrPos(iff) + " decides whether the comment is replaced, and it is not a test of the target found"
+		}
+	}
+	c.Check(nAppend > 0 && n > 0 && bad == "", "R10.6", "EditCommentOperation.Apply:no-op-only-without-target", w.FnPos(fn), fmt.Sprintf("%d deciding branches, all tests of the target (nil / type)", n),
+		bad+": an edit of an existing comment is dropped depending on something else (its author, its text, the snapshot), so the compiled comment text and its history no longer follow the operations")
 }
